@@ -27,6 +27,8 @@
 #include <opm/input/eclipse/Units/UnitSystem.hpp>
 #include <opm/input/eclipse/Python/Python.hpp>
 
+#include <omp.h>
+
 #include <algorithm>
 #include <array>
 #include <cmath>
@@ -597,6 +599,7 @@ int main(int argc, char** argv) {
     const std::string tier = argv[3];
     const std::string outdir = argv[4];
     fs::create_directories(outdir);
+    omp_set_num_threads(1);     // tiny decks: OpenMP teams only cost time (and the machine is shared)
     vh::Rng rng(seed);
     const bool thorough = tier == "thorough";
 
@@ -604,7 +607,7 @@ int main(int argc, char** argv) {
         vh::Sink sink(outdir);
         int maskCounter = (int) rng.below(48);
         // (1) one connection per record
-        const int ndecks = thorough ? 1500 : 150;
+        const int ndecks = thorough ? 8000 : 600;
         for (int n = 0; n < ndecks; ++n) {
             const bool wild = n % 3 == 2;
             CtfDeck d = makeCtfDeck(rng, wild, maskCounter);
@@ -674,7 +677,7 @@ int main(int argc, char** argv) {
             }
         }
         // (2) histories
-        const int nseq = thorough ? 1200 : 150;
+        const int nseq = thorough ? 8000 : 600;
         for (int n = 0; n < nseq; ++n) {
             SeqDeck d = makeSeqDeck(rng, tier, true);
             std::unique_ptr<Loaded> l;
@@ -718,7 +721,7 @@ int main(int argc, char** argv) {
         std::map<std::string, long> stats;
         int maskCounter = (int) rng.below(48);
         // (P1) identity, (P2) defaults are the text-book values, (P3) idempotence
-        const int ndecks = thorough ? 1200 : 120;
+        const int ndecks = thorough ? 6000 : 500;
         for (int n = 0; n < ndecks; ++n) {
             CtfDeck d = makeCtfDeck(rng, false, maskCounter);
             std::unique_ptr<Loaded> l;
@@ -823,7 +826,7 @@ int main(int argc, char** argv) {
             }
         }
         // (P4) frame properties over histories
-        const int nseq = thorough ? 1500 : 200;
+        const int nseq = thorough ? 8000 : 700;
         for (int n = 0; n < nseq; ++n) {
             SeqDeck d = makeSeqDeck(rng, tier, false);
             std::unique_ptr<Loaded> l;
